@@ -46,6 +46,22 @@ def run(rng, tier, res=None):
         Q = np.array([[rng.gauss(0, 1.5) for _ in range(d)] for _ in range(nq)])
         scale = rng.choice([1.0, 1.0, 1e-3, 1e3, 1e-2])     # the invariances do not depend on the unit of the features
         X = X * scale; Q = Q * scale
+        narrow = None
+        mode_ = rng.random()
+        if mode_ < 0.15:
+            # features with a large common offset (map coordinates, timestamps): still double precision, still tie-free
+            off = rng.choice([1.7e7, 1.7e9, 3.0e6])
+            X = off + np.array([[rng.gauss(0, 3) for _ in range(d)] for _ in range(n)])
+            Q = off + np.array([[rng.gauss(0, 4) for _ in range(d)] for _ in range(nq)])
+            res.hit("large_offset_features")
+        elif mode_ < 0.3:
+            # narrow integer features passed as they are (image patches, sensor counts)
+            narrow = rng.choice([np.uint8, np.int8, np.int16, np.uint16])
+            hi = {np.uint8: 255, np.int8: 127, np.int16: 30000, np.uint16: 60000}[narrow]
+            lo = {np.uint8: 0, np.int8: -128, np.int16: -30000, np.uint16: 0}[narrow]
+            X = np.array([[rng.randint(lo, hi) for _ in range(d)] for _ in range(n)], dtype=narrow)
+            Q = np.array([[rng.randint(lo, hi) for _ in range(d)] for _ in range(nq)], dtype=narrow)
+            res.hit("narrow_integer_features")
         if rng.random() < 0.3:
             Q[0] = X[rng.randrange(n)]
         meta = {"X": X.tolist(), "Y": Y.tolist(), "Q": Q.tolist()}
@@ -115,6 +131,17 @@ def run(rng, tier, res=None):
         except Exception as ex:
             viol([f"{m} raised {type(ex).__name__} where euclidean is defined: not a transform of the Euclidean distance"], meta)
             continue
+        if narrow is not None:
+            Xf, Qf = X.astype(np.float64), Q.astype(np.float64)
+            for m in FAMILY:
+                f = dist.DISTANCES[m]
+                ref = [float(f(Xf[a], Xf[b])) for a in range(n) for b in range(n) if a != b] + \
+                      [float(f(Xf[t], Qf[i])) for i in range(nq) for t in range(n)]
+                bad_ = [(u, v) for u, v in zip(mats[m], ref) if not (abs(u - v) <= 1e-9 * max(1.0, abs(v)))]
+                if bad_:
+                    viol([f"{m} on {np.dtype(narrow).name} features gives {bad_[0][0]!r} where the same values as float64 give {bad_[0][1]!r}: "
+                          f"not a monotone transform of the Euclidean distance of the samples"], meta)
+                    break
         ot = {m: order_type(v) for m, v in mats.items()}
         # a strictly increasing transform may MERGE values in binary64 (weak monotonicity) but can never INVERT two
         inverted = []
